@@ -21,7 +21,7 @@ import (
 type svcapiDom struct {
 	lsMu  sync.Mutex
 	lsLog []string
-	run *svc.Runner
+	run   *svc.Runner
 }
 
 func init() { Register("svcapi", func() Domain { return &svcapiDom{} }) }
